@@ -238,8 +238,8 @@ def configs(tier, seed):
     seeds = sorted({0, seed})
     for sampler in ("importance", "emcee", "minipcn", "smc", "emcee_smc"):
         for precond, sd in itertools.product(("none", "tight", "periodic", "logit_affine", "probit", "affine"), seeds):
-            if sampler == "importance" and precond != "none":
-                continue
+            if sampler == "importance" and precond not in ("none", "tight"):
+                continue  # "tight": a share of the proposal's draws has zero prior
             for ns, dt in (("numpy", None), ("numpy", "float32"), ("torch", None), ("torch", "float64")):
                 if sampler in ("emcee", "emcee_smc") and ns == "torch" and tier == "quick":
                     continue
